@@ -1,3 +1,103 @@
+//! C16 — Stream sockets deliver bytes intact; waits, timeouts, fd passing as specified.
+//!
+//! Code under test: `tiny_std::net` (Unix and TCP streams/listeners over non-blocking sockets:
+//! operation, on EAGAIN/EINPROGRESS `ppoll`, then one retry), `rusl::network::{sendmsg, recvmsg}`
+//! with `ControlMessageSend::ScmRights` and the control-message iterator of `MsgHdrBorrow`.
+//!
+//! Sub-checks (each a proptest strategy over a serialisable case, see the modules):
+//!   stream    one end tiny-std (harness thread), other end libc (peer thread); payload
+//!             0..8 MiB, chunk sequences 1..256 KiB on both sides, stalls, small socket buffers;
+//!             received stream == sent stream, `read` == 0 only after the peer closed
+//!   eintr     the same with EINTR injected (E2) into ppoll/read/write of the tiny-std side
+//!   timeouts  accept_with_timeout / connect_with_timeout / read_with_timeout, silent peer:
+//!             Timeout, and monotonic elapsed >= requested
+//!   try       try_accept / try_connect: no waiting syscall, socket calls only on non-blocking
+//!             descriptors (trace property from the E2 log)
+//!   order     orders of connect/accept/close, k connects before the first accept, libc
+//!             listeners with backlog 0..2, accept with nothing pending
+//!   fdpass    SCM_RIGHTS with 0..32 descriptors into control buffers of every size class that
+//!             end at a PROT_NONE page; runs LAST, each case body in a forked child
+//!
+//! Wall-clock time is never an upper bound anywhere; the delays in the cases are scheduling
+//! hints for the peer thread, and whether a wait really happened is read from the E2 log.
+mod common;
+mod fdpass;
+mod order;
+mod stream;
+mod timeouts;
+mod trycalls;
+
+use std::cell::Cell;
+use std::sync::atomic::Ordering;
+
+use serde_json::json;
 use vh::runner::Ctx;
 
-pub fn run(_ctx: &Ctx) {}
+pub fn run(ctx: &Ctx) {
+    common::WORKER.store(ctx.worker, Ordering::Relaxed);
+    // a peer that went away must surface as EPIPE, not kill the worker
+    unsafe {
+        libc::signal(libc::SIGPIPE, libc::SIG_IGN);
+    }
+    let fds0 = common::count_fds();
+    let max_leak = Cell::new(0i64);
+    let track = |before: usize| {
+        let d = common::count_fds() as i64 - before as i64;
+        if d > max_leak.get() {
+            max_leak.set(d);
+        }
+    };
+    let th = ctx.thorough();
+
+    ctx.run_prop("stream", ctx.cases(220, 6000), stream::stream_strategy(th, false), |c| {
+        let b = common::count_fds();
+        let r = stream::run_stream(c);
+        track(b);
+        r
+    });
+    ctx.run_prop("eintr", ctx.cases(120, 4000), stream::stream_strategy(th, true), |c| {
+        let b = common::count_fds();
+        let r = stream::run_stream(c);
+        track(b);
+        r
+    });
+    ctx.run_prop("timeouts", ctx.cases(60, 1200), timeouts::timeout_strategy(), |c| {
+        let b = common::count_fds();
+        let r = timeouts::run_timeout(c);
+        track(b);
+        r
+    });
+    ctx.run_prop("try", ctx.cases(150, 5000), trycalls::try_strategy(), |c| {
+        let b = common::count_fds();
+        let r = trycalls::run_try(c);
+        track(b);
+        r
+    });
+    ctx.run_prop("order", ctx.cases(150, 5000), order::order_strategy(), |c| {
+        let b = common::count_fds();
+        let r = order::run_order(c);
+        track(b);
+        r
+    });
+    // more connects than net.core.somaxconn against a tiny-std listener (it listens with
+    // i32::MAX, clamped by the kernel): thorough tier, one worker
+    if (th && ctx.worker == 0) || ctx.is_replay() {
+        let k = order::somaxconn() + 3;
+        let case = order::OrderCase { tcp: false, mode: 2, backlog: 0, flood: k.min(60_000) as u16, steps: vec![order::Step::Accept { delay_us: 0 }, order::Step::Connect { delay_us: 500 }] };
+        let mut lim = libc::rlimit { rlim_cur: 0, rlim_max: 0 };
+        let enough = unsafe { libc::getrlimit(libc::RLIMIT_NOFILE, &mut lim) == 0 && (lim.rlim_cur as usize) > 2 * k + 200 };
+        if ctx.is_replay() {
+            if let Some(c) = ctx.replay_case::<order::OrderCase>("order-flood") {
+                ctx.run_one("order-flood", &c, || order::run_order(&c));
+            }
+        } else if enough && k < 30_000 {
+            ctx.run_one("order-flood", &case, || order::run_order(&case));
+        }
+    }
+    ctx.extra("max_fd_delta_per_case_before_fdpass", json!(max_leak.get()));
+    let _ = fds0;
+
+    // LAST: a fault inside the control-message iterator kills the process that runs the case
+    // body (a forked child by default, the worker itself with C16_FDPASS_INPROCESS=1)
+    ctx.run_prop("fdpass", ctx.cases(400, 20_000), fdpass::fd_strategy(), |c| fdpass::run_fdpass(c));
+}
